@@ -23,7 +23,7 @@ export function effectiveOptions(optionsJson) {
  *   A = transformed execution, B = reference interpreter
  *   each = { error?, canon, trace, raw, events }
  */
-export async function evalSemantic(spec, rec, optionsJson, { slotCalls = 2, runRef = true } = {}) {
+export async function evalSemantic(spec, rec, optionsJson, { slotCalls = 2, runRef = true, live = null } = {}) {
   if (rec.exec == null) return { error: { phase: 'exec-declined', message: rec.exec_declined } };
   const opts = effectiveOptions(optionsJson);
   const env = spec.env || {};
@@ -65,7 +65,9 @@ export async function evalSemantic(spec, rec, optionsJson, { slotCalls = 2, runR
       }
       out.push(one);
     }
-    return { thunks: out, rt, ns };
+    const res = { thunks: out, rt, ns };
+    if (live) res.live = await live(res);
+    return res;
   } finally {
     cleanup();
   }
